@@ -39,6 +39,7 @@ REQUIRED = ["imports", "children()/parents() calls compared with the model", "re
             "shortcut relatives (level 1 and level 2 of one feature) returned once for level=None",
             "wide: features with > 1000 direct children compared at levels 1/2/None",
             "wide: level-2 relatives reached through a child numbered >= 1000 (file order) compared",
+            "wide: nested loops over > 1000 children, one or two inner generators each",
             "interleaved: generators consumed while another generator of the same FeatureDB was alive",
             "interleaved: nested loops with >= 2 outer items and a non-empty inner result",
             "interleaved: schedules over >= 2 non-empty generators (one with >= 2 items)"]
@@ -513,7 +514,7 @@ def run(ctx):
         execute(ctx, case)
         account(ctx, case)
     # 1. word-like ids (first: its violations are reported before those of the hostile class)
-    for i in range(ctx.budget(740, 9000)):
+    for i in range(ctx.budget(700, 9000)):
         g = G.graph(rng)
         n = len(g["nodes"])
         every = n > 1 and (n <= 5 or (n == 6 and i % 16 == 0)) if thorough else (1 < n <= 5 and i % 6 == 0)
@@ -532,7 +533,7 @@ def run(ctx):
             ctx.classes["hostile id: " + fl] += 1
             execute(ctx, case)
             account(ctx, case)
-    for _ in range(ctx.budget(250, 3000)):
+    for _ in range(ctx.budget(240, 3000)):
         g = G.graph(rng, max_nodes=8)
         flavours = G.make_hostile(rng, g)
         if not flavours:
